@@ -21,6 +21,8 @@ mod e_c05;
 mod e_decode;
 mod e_emit;
 mod e_c06;
+mod e_c09;
+mod e_c10;
 mod e_c16;
 mod e_c18;
 mod e_c19;
@@ -81,6 +83,8 @@ fn main() {
         "c05" => e_c05::run(&ctx),
         "decode" => e_decode::run(&ctx),
         "c06" => e_c06::run(&ctx),
+        "c09" => e_c09::run(&ctx),
+        "c10" => e_c10::run(&ctx),
         "c16" => e_c16::run(&ctx),
         "c18" => e_c18::run(&ctx),
         "c19" => e_c19::run(&ctx),
